@@ -84,6 +84,20 @@ def run(ctx):
     ok, out = ctx.run_harness(b, [tr, ctx.tier], tr)
     if ok:
         ctx.validate(TRACE_MODULE, tr, label="pure")
+    # GLM bundles its own round / trunc / roundEven / isnan / isinf / fmin / fmax for pre-C++11 standard libraries (GLM_HAS_CXX11_STL == 0):
+    # separate code, same definitions - the events of those functions from a GLM_FORCE_CXX98 build, judged by the same trace specification
+    b98 = ctx.build("c11_cxx98", "c11.cpp", flags=["-DGLM_FORCE_CXX98"], label="c11 cxx98")
+    if b98:
+        t98 = ctx.scratch.path("c11_cxx98.ndjson")
+        ok98, out98 = ctx.run_harness(b98, [t98, ctx.tier], t98)
+        if ok98:
+            keep = tuple('{"op":"%s"' % o for o in ("trunc", "round", "roundEven", "isnan", "isinf", "fmin", "fmax", "fclamp", "iround", "uround", "floor", "ceil"))
+            f98 = ctx.scratch.path("c11_cxx98_sel.ndjson")
+            with open(t98) as f, open(f98, "w") as g:
+                for ln in f:
+                    if ln.startswith(keep):
+                        g.write(ln)
+            ctx.validate(TRACE_MODULE, f98, label="cxx98-fallbacks")
     ctx.rule("float and double: every binade (sampled outside the integer-rounding range in quick) x mantissa patterns incl. k+1/2 +- ulp ties, odd/even "
              "integers, 2^23/2^52 neighbourhood, subnormals, max, inf, NaN through floor/ceil/trunc/round/roundEven/fract/abs/sign/isnan/isinf/frexp/"
              "modf/ldexp/texture wraps/iround/uround; special-value lattice^2..4 + random moderate operands through min/max/fmin/fmax/clamp/fclamp/"
